@@ -174,8 +174,13 @@ func (c *Ctx) Expand(names []string) (*Expansion, error) {
 				continue
 			}
 			name := "vf_" + strings.TrimSuffix(filepath.Base(spec), ext)
-			fixtures = append(fixtures, &Fixture{Name: name, Package: "api", Spec: spec, Origin: filepath.Join(c.Repo, "internal/integration/generate.go"),
-				Dir: filepath.Join(ex.Dir, name), PkgPath: "expansions/" + name})
+			fx := &Fixture{Name: name, Package: "api", Spec: spec, Origin: filepath.Join(c.Repo, "internal/integration/generate.go"),
+				Dir: filepath.Join(ex.Dir, name), PkgPath: "expansions/" + name}
+			// an ogen config next to the spec: fixtures/configs/<base>.yml
+			if cfg := filepath.Join(c.VerifDir, "fixtures", "configs", strings.TrimSuffix(filepath.Base(spec), ext)+".yml"); fileExists(cfg) {
+				fx.Config = cfg
+			}
+			fixtures = append(fixtures, fx)
 		}
 	}
 	for n := range want {
@@ -262,4 +267,9 @@ func (e *Expansion) FixtureNames() []string {
 		out = append(out, f.Name)
 	}
 	return out
+}
+
+func fileExists(p string) bool {
+	st, err := os.Stat(p)
+	return err == nil && !st.IsDir()
 }
